@@ -271,3 +271,51 @@ SPECS["C17"] = {
          "rule": CRASH_RULES["C17"]},
     ],
 }
+
+SPECS["C12"] = {
+    "level": "fault_enumeration", "quick_budget": 55, "thorough_budget": 900,
+    "assumptions": COMMON_ASSUME + [
+        "fault model: the k-th intercepted call (open, close, read, pread, write, fsync, fdatasync, rename, unlink, link, mkdir, mmap on paths/fds below the database directory) fails with ENOSPC/EIO/EMFILE/ENOENT, once or from there on, or as a short write followed by an error",
+        "a write that returned an error is indeterminate (its batch may or may not be applied, atomically); reads may return an error status once a failure has been injected",
+        "the process-kill image is the directory contents at the moment the fault is cleared (user-space buffers lost)",
+    ],
+    "run": generic_run,
+    "parts": [
+        {"name": "asan", "engine": "fault", "flavour": "asan", "kind": "C12", "nt": "C12.nt", "quick_count": 100000, "thorough_count": 10000000, "budget_share": 0.5,
+         "rule": "cases = (generated history, failure site k, errno, one-shot/persistent/short-write): the history is first run fault-free to count the eligible intercepted calls N, then re-executed with the k-th call failing, "
+                 "for every k when N <= 60 (400 thorough) and for a seeded sample otherwise; non-trivial = the injected call was reached and >=1 write was acknowledged in that run; distinct by (case, plan) hash"},
+        {"name": "plain", "engine": "fault", "flavour": "plain", "kind": "C12", "nt": "C12.nt", "quick_count": 100000, "thorough_count": 10000000, "budget_share": 0.5, "seed_offset": 7777,
+         "rule": "same with lcdb built without sanitizers (more sites per second)"},
+    ],
+}
+
+CONC_ASSUME = COMMON_ASSUME + [
+    "all threads of the process (client threads and lcdb's background thread) are serialised by the harness scheduler; preemption happens only at lock, condition-variable, thread-creation and intercepted system-call boundaries (the granularity C08 states); memory-model effects between two yield points are out of scope here (C10)",
+    "operation stamps come from one logical clock incremented at invoke and return; a preemption between taking a stamp and entering lcdb only widens an operation's interval (sound)",
+    "keys of the larger programs have a single writer thread and unique values, which is what makes the register checks exact; tiny programs share keys and get the complete linearizability search",
+]
+
+CONC_RULE = ("cases = (rapidcheck-generated program of 2..5 client threads (8 thorough): put/del/batch/get/snapshot multi-get/scan/flush/compact/property, optional setup that fills the write buffer or stacks level-0 files) x schedule "
+             "(random, PCT with 1..3 change points, background-starved, background-eager; optional spurious wake-ups and arbitrary signal targets; several seeds per program; bounded-exhaustive depth-first enumeration with preemption bound 2 for 2-thread x <=2-op programs); ")
+SPECS["C08"] = {
+    "engine": "conc", "flavour": "asan", "kind": "C08", "nt": "C08.nt", "level": "exploration", "quick_count": 1000000, "thorough_count": 100000000,
+    "quick_budget": 50, "thorough_budget": 900, "assumptions": CONC_ASSUME, "run": generic_run,
+    "rule": CONC_RULE + "oracle: complete Wing-Gong linearizability search for histories of <=14 operations, register freshness/monotonicity, snapshot and scan views closed under each writer's program order, final state; "
+            "non-trivial = a history with >=2 real-time-overlapping operations on one key, one of them a write; distinct by (program, choice sequence) hash",
+}
+SPECS["C09"] = {
+    "engine": "conc", "flavour": "asan", "kind": "C09", "nt": "C09.nt", "level": "exploration", "quick_count": 1000000, "thorough_count": 100000000,
+    "quick_budget": 50, "thorough_budget": 900, "assumptions": CONC_ASSUME + ["fairness is assumed only in the weak form that a runnable thread is eventually chosen; the per-call bound is 4,000,000 scheduler steps"], "run": generic_run,
+    "rule": CONC_RULE + "generator biased to blocking paths (write buffer nearly full, large values forcing memtable switches, up to 11 level-0 files, flush/compaction issued by several threads, background-starved schedules, spurious wake-ups); "
+            "oracle: no state with unfinished threads and no runnable thread, every call returns within its step bound, no thread left blocked after ldb_close; non-trivial = a run in which >=1 thread blocked in cond_wait and was later woken; distinct by (program, choice sequence) hash",
+}
+SPECS["C04"] = {
+    "level": "exploration", "quick_budget": 70, "thorough_budget": 900, "assumptions": CRASH_ASSUME + CONC_ASSUME, "run": generic_run,
+    "parts": [
+        {"name": "crash", "engine": "crash", "flavour": "plain", "kind": "C04", "nt": "C04.nt", "eval_counter": "images", "quick_count": 100000, "thorough_count": 10000000, "budget_share": 0.5,
+         "rule": CRASH_RULES["C04"]},
+        {"name": "conc", "engine": "conc", "flavour": "asan", "kind": "C04c", "nt": "C04.nt", "quick_count": 1000000, "thorough_count": 100000000, "budget_share": 0.5,
+         "rule": CONC_RULE + "generator weighted to batches that set a writer's whole key group to one fresh token and to snapshot multi-gets / scans of whole groups; a view showing two tokens of one batch, or a later write of a thread without its earlier ones, is a violation; "
+                 "non-trivial = a multi-update batch overlapping a read of its keys in real time"},
+    ],
+}
